@@ -442,6 +442,17 @@ def arr_getitem(ex, a, idx):
     if isinstance(idx, SliceV) and idx.lo is None and idx.hi is None and idx.step is not None and tm.is_const(tm.lift(idx.step)) and tm.cval(tm.lift(idx.step)) == -1 and a.ndim == 1 and a.mask is None:
         from . import libmodels_ext as lx
         return lx.np_flip(ex, a)
+    if isinstance(idx, SliceV) and idx.lo is None and idx.hi is None and idx.step is not None and a.ndim == 1 and a.mask is None and not (tm.is_const(tm.lift(idx.step)) and tm.cval(tm.lift(idx.step)) == 1):
+        # a[::s] with a positive (possibly symbolic) stride: ceil(n / s) elements, element k is a[k s]; a view of a
+        st_ = tm.lift(idx.step)
+        Arith(ex).need(tm.ge(st_, tm.const(1)), "positive slice step")
+        used(ex, "a[::s]: ceil(len(a)/s) elements, element k is a[k*s]")
+        f = a.cur()
+        n_ = a.shape[0]
+        m_ = tm.floordiv(tm.add(n_, tm.sub(st_, tm.const(1))), st_)
+        v = ArrV((m_,), lambda i_: f((tm.mul(i_[0], st_),)), a.dtype)
+        v.view_of = (a, lambda i_, st_=st_: (tm.mul(i_[0], st_),))
+        return v
     if isinstance(idx, PermV):
         if a.ndim != 1 or a.mask is not None or (a.shape[0] is not idx.key.shape[0]):
             raise OutOfSubset("permutation index of this operand")
@@ -522,6 +533,22 @@ def setitem(ex, o, idx, val):
         return
     if isinstance(o, ArrV):
         return arr_setitem(ex, o, idx, val)
+    if isinstance(o, RecArrV) and isinstance(idx, str):
+        if idx not in o.fields:
+            raise Raised("ValueError", "no field of name " + idx)
+        old = o.fields[idx]
+        v = as_array(ex, val)
+        if isinstance(old, ArrV):
+            # rec[name] = values: the field's contents are overwritten in place (same record array object)
+            if isinstance(v, ArrV):
+                g = v.cur()
+                old.store(lambda i: tm.TRUE, g)
+            elif isinstance(v, T):
+                old.store(lambda i: tm.TRUE, lambda i, v=v: v)
+            else:
+                raise OutOfSubset("record field store of this value")
+            return
+        raise OutOfSubset("store into a non-array record field")
     raise OutOfSubset(f"subscript store on {type(o).__name__}")
 
 
@@ -1093,6 +1120,7 @@ BUILTINS = {
     "sum": LibFn("sum", b_sum),
     "abs": LibFn("abs", b_abs),
     "float": LibFn("float", b_float),
+    "bool": LibFn("bool", lambda ex, v=False: (v if isinstance(v, bool) else (v if (isinstance(v, T) and v.sort == tm.B) else ex.truth(v)))),
     "int": LibFn("int", b_int),
     "zip": LibFn("zip", lambda ex, *parts: zip_model(ex, parts)),
     "enumerate": LibFn("enumerate", lambda ex, it: EnumV(it)),
